@@ -1,6 +1,10 @@
 package main
 
 import (
+	"bytes"
+	"net/http"
+	"net/http/httptest"
+
 	"encoding/json"
 	"fmt"
 	"strings"
@@ -9,6 +13,7 @@ import (
 	"github.com/trustbloc/sidetree-core-go/pkg/api/protocol"
 	"github.com/trustbloc/sidetree-core-go/pkg/dochandler"
 	"github.com/trustbloc/sidetree-core-go/pkg/processor"
+	restdoc "github.com/trustbloc/sidetree-core-go/pkg/restapi/dochandler"
 
 	"verifharness/hx"
 	"verifharness/ref"
@@ -62,6 +67,19 @@ func parseCall(p []byte) (reply []byte) {
 		_, err = dh.ProcessOperation(in, c.Proto.GenesisTime)
 		if (err == nil) != (w.Len() == 1) {
 			return []byte(fmt.Sprintf("PANIC:handler returned err=%v but recorded %d writer adds", err, w.Len()))
+		}
+	case "RestUpdate":
+		// the REST front end of the document handler: accepted = HTTP 200
+		pc := hx.NewClient(v)
+		w := &hx.RecWriter{}
+		dh := dochandler.New(hx.Namespace, nil, pc, w, processor.New("verif", hx.NewOpStore(), pc), hx.NopMetrics{})
+		rw := httptest.NewRecorder()
+		restdoc.NewUpdateHandler(dh, pc, hx.NopMetrics{}).Update(rw, httptest.NewRequest(http.MethodPost, "/operations", bytes.NewReader(in)))
+		if (rw.Code == http.StatusOK) != (w.Len() == 1) {
+			return []byte(fmt.Sprintf("PANIC:REST handler answered %d but recorded %d writer adds", rw.Code, w.Len()))
+		}
+		if rw.Code != http.StatusOK {
+			err = fmt.Errorf("http %d: %s", rw.Code, strings.TrimSpace(rw.Body.String()))
 		}
 	case "HandlerWarm":
 		v0 := hx.NewVersion(*c.Proto0, hx.VersionOpts{})
@@ -560,6 +578,23 @@ func checkC10(c *hx.Ctx) {
 						}
 					}
 				}
+				// members that belong to the request duplicated INSIDE the signed payload with the right value, while the request's
+				// own member carries another request's (well-formed) value: the request's own members are what counts
+				for _, name := range []string{"revealValue", "didSuffix", "type", "delta"} {
+					own, has := v.req[name]
+					foreign := lookup(others[vi].req, []string{name})
+					if !has || foreign == nil || fmt.Sprint(own) == fmt.Sprint(foreign) {
+						continue
+					}
+					pl := ref.CopyTree(payload).(map[string]interface{})
+					pl[name] = ref.CopyTree(own)
+					t := ref.CopyTree(v.req).(map[string]interface{})
+					t["signedData"] = ref.CompactJWS(v.key, v.key.Header(""), ref.MustJCS(pl))
+					t[name] = ref.CopyTree(foreign)
+					if !aip("Parse", base, ref.MustJCS(t), "member-copied-into-signed-payload:"+v.typ+":"+name) {
+						return
+					}
+				}
 				for hi, hv := range []map[string]interface{}{{}, {"alg": nil}, {"alg": ""}, {"alg": float64(1)}, {"alg": "none"}, {"alg": "HS256"}, {"alg": v.key.Alg(), "typ": "JWT"},
 					{"alg": v.key.Alg(), "kid": float64(1)}, {"alg": v.key.Alg(), "b64": false}, {"alg": v.key.Alg(), "crit": []interface{}{"b64"}}, {"kid": "x"}, {"alg": ref.AlgFor(ref.KeyTypes[(ci+2)%5])}} {
 					jwsS := ref.CompactJWS(v.key, hv, ref.MustJCS(payload))
@@ -604,7 +639,9 @@ func checkC10(c *hx.Ctx) {
 		strict := []protoVariant{
 			{"MaxOperationSize=200", func(p *protocol.Protocol) { p.MaxOperationSize = 200 }},
 			{"MaxDeltaSize=50", func(p *protocol.Protocol) { p.MaxDeltaSize = 50 }},
-			{"only ES384/P-384", func(p *protocol.Protocol) { p.SignatureAlgorithms, p.KeyAlgorithms = []string{"ES384"}, []string{"P-384"} }},
+			{"only ES384/P-384", func(p *protocol.Protocol) {
+				p.SignatureAlgorithms, p.KeyAlgorithms = []string{"ES384"}, []string{"P-384"}
+			}},
 			{"only sha2-512", func(p *protocol.Protocol) { p.MultihashAlgorithms = []uint{ref.SHA512} }},
 			{"only replace patches", func(p *protocol.Protocol) { p.Patches = []string{"replace"} }},
 			{"MaxOperationHashLength=20", func(p *protocol.Protocol) { p.MaxOperationHashLength = 20 }},
@@ -705,6 +742,15 @@ func checkC10(c *hx.Ctx) {
 					}
 					if !expect("GetRevealValue", p, past, false, fmt.Sprintf("request-size(GetRevealValue) %s one past MaxOperationSize=%d [%s]", v.typ, size, o.name)) {
 						return false
+					}
+					if v.typ == "create" {
+						// the same two requests over HTTP (a body longer than the limit must not be cut down to it)
+						longer := append(append([]byte{}, at...), []byte("\n\n   \n")...) // a valid request of exactly the limit, then line breaks
+						if !expect("RestUpdate", p, at, true, fmt.Sprintf("request-size(REST) create exactly MaxOperationSize=%d [%s]", size, o.name)) ||
+							!expect("RestUpdate", p, past, false, fmt.Sprintf("request-size(REST) create one past MaxOperationSize=%d [%s]", size, o.name)) ||
+							!expect("RestUpdate", p, longer, false, fmt.Sprintf("request-size(REST) create followed by line breaks, past MaxOperationSize=%d [%s]", size, o.name)) {
+							return false
+						}
 					}
 				}
 				return true
